@@ -28,7 +28,7 @@ func init() {
 			"payload contents are position-coded, not arbitrary; sizes come from the stated alphabet",
 		},
 		Units:          Units("C01", nil, ""),
-		QuickBudget:    150,
+		QuickBudget:    240,
 		ThoroughBudget: 900,
 	})
 }
